@@ -60,6 +60,12 @@ func init() {
 		return RunWatchOnlySolo(&ReplaySrc{Vals: vals}, mkC07(), keepLog)
 	})
 	regSafety("C11", mkC11, shC11)
+	replayers["C11"] = append(replayers["C11"], func(vals []int, keepLog bool) *sim.World {
+		if len(vals) > 0 {
+			vals = vals[1:] // the share draw
+		}
+		return RunLargeCommittee(&ReplaySrc{Vals: vals}, mkC11(), keepLog)
+	})
 	regSafety("C12", mkC12, shC12)
 	replayers["C12"] = append(replayers["C12"], func(vals []int, keepLog bool) *sim.World {
 		return RunNestedTx(&ReplaySrc{Vals: vals}, mkC12(), keepLog)
@@ -206,10 +212,29 @@ func TestC07(t *testing.T) {
 }
 
 func TestC11(t *testing.T) {
-	runProp(t, "C11", func(e *Env) func(*rapid.T) {
-		return SafetyProp(e, mkC11, shC11, func(w *sim.World) bool {
-			return w.Stats["c11_probe_nontrivial"] > 0
+	SkipUnlessSelected(t, "C11")
+	e := GetEnv("C11")
+	defer e.Flush()
+	rapid.Check(t, SafetyProp(e, mkC11, shC11, func(w *sim.World) bool {
+		return w.Stats["c11_probe_nontrivial"] > 0
+	}))
+	if t.Failed() {
+		return
+	}
+	// no panic, whatever the size of the committee: 24..200 validators, the node the speaker of every height
+	rapid.Check(t, func(t *rapid.T) {
+		src := &RapidSrc{T: t}
+		if src.Intn("largeshare", 3) != 0 { // a third of the budget is plenty (a case costs milliseconds)
+			return
+		}
+		w := RunLargeCommittee(src, mkC11(), false)
+		fatal := e.Report(w, src.Rec, func() string {
+			return RunLargeCommittee(&ReplaySrc{Vals: src.Rec[1:]}, mkC11(), true).Render()
 		})
+		e.Case(FPInts(src.Rec), w.Stats["large_response"] > 70, w.Stats, func() any { return sampleOf(w, src.Rec) })
+		if fatal != "" {
+			t.Fatalf("%s", fatal)
+		}
 	})
 }
 
